@@ -100,6 +100,8 @@ where
                 folder.update_name(&folder_id, &folder_name)
             })
             .await?;
+        #[cfg(sos_verif)]
+        sos_core::verif_hooks::probe("db_vault.set_name.committed");
         Ok(WriteEvent::SetVaultName(name))
     }
 
@@ -115,6 +117,8 @@ where
                 folder.update_flags(&folder_id, &folder_flags)
             })
             .await?;
+        #[cfg(sos_verif)]
+        sos_core::verif_hooks::probe("db_vault.set_flags.committed");
         Ok(WriteEvent::SetVaultFlags(flags))
     }
 
@@ -130,6 +134,8 @@ where
                 folder.update_meta(&folder_id, folder_meta.as_slice())
             })
             .await?;
+        #[cfg(sos_verif)]
+        sos_core::verif_hooks::probe("db_vault.set_meta.committed");
         Ok(WriteEvent::SetVaultMeta(meta_data))
     }
 
@@ -157,6 +163,8 @@ where
             })
             .await
             .map_err(Error::from)?;
+        #[cfg(sos_verif)]
+        sos_core::verif_hooks::probe("db_vault.insert_secret.committed");
         Ok(WriteEvent::CreateSecret(
             secret_id,
             VaultCommit(commit, secret),
@@ -202,6 +210,8 @@ where
                 folder.update_secret(&folder_id, &secret_row)
             })
             .await?;
+        #[cfg(sos_verif)]
+        sos_core::verif_hooks::probe("db_vault.update_secret.committed");
         Ok(updated.then_some(WriteEvent::UpdateSecret(
             *secret_id,
             VaultCommit(commit, secret),
@@ -222,6 +232,8 @@ where
             })
             .await
             .map_err(Error::from)?;
+        #[cfg(sos_verif)]
+        sos_core::verif_hooks::probe("db_vault.delete_secret.committed");
         Ok(deleted.then_some(WriteEvent::DeleteSecret(*secret_id)))
     }
 
@@ -229,11 +241,14 @@ where
         &mut self,
         vault: &Vault,
     ) -> Result<(), Self::Error> {
-        Ok(FolderEntity::replace_all_secrets(
+        FolderEntity::replace_all_secrets(
             self.client.clone(),
             &self.folder_id,
             vault,
         )
-        .await?)
+        .await?;
+        #[cfg(sos_verif)]
+        sos_core::verif_hooks::probe("db_vault.replace_vault.committed");
+        Ok(())
     }
 }
